@@ -63,4 +63,9 @@ CLAIMED['C04'] = {
     'text': 'For every signal length, step size, thresholds and iteration limit, get_next_imf is proved to return the iterate at which the rule first fires with its full envelope mean removed, or the first iterate without envelopes, to flag the final residual only for an input without envelopes, to raise the convergence error only beyond the limit, and to terminate (variant). Envelopes are uninterpreted functions of the iterate (interp_envelope is modular, C05).',
     'note': PROOF_NOTE + 'interp_envelope by contract; a vector with both envelopes is assumed non-zero; rilling_stop assumes pointwise distinct envelopes.',
 }
+CLAIMED['C01'] = {
+    'technique': 'deductive: loop invariant of sift (running residual = input minus row sum of the components; components = extraction from the residual recursion; exit reason) with get_next_imf replaced by its C04 contract, postcondition from the statement; VCs from the real source discharged by z3; bounded stand-in: every sequence <= 7/9 over 3 levels and seeded signals x option grid on the real sift',
+    'text': 'For every signal length, threshold and option set the classic sift is proved to return components that sum to the input at every sample, with a last component that has no envelopes (non-oscillatory), whenever it was not cut short by the cap or the sift threshold - given the contract of single-IMF extraction proved under C04. Floating-point rounding is measured by the bounded stand-in only.',
+    'note': PROOF_NOTE + 'get_next_imf by its C04 contract (pure function of its input); sum of a concatenation = sum of the sums of the pieces (assumed numpy contract).',
+}
 PENDING_REASON = {}
